@@ -142,27 +142,29 @@ def rule_M(ctx):
         if not isinstance(v, ast.Constant):
             raise anchor_error('%s not found' % k, SEG)
         consts[k] = v.value
-    fn = absint.funcs(ctx, SEG, {'isnan': lambda x: isinstance(x, float) and math.isnan(x)})
+    fn = absint.funcs(ctx, SEG, {})            # isnan() is the repository's own (tracklib.core.utils), interpreted
     fn['__globals__'].update({'NAN': NAN, 'sys.float_info.max': 1.0e308})
+    from ..npstub import NpF32, NpF64
+    kinds = {'Python float': float, 'numpy.float64 scalar': NpF64, 'numpy.float32 scalar': NpF32}
     TrackS, _, _ = _track_model(ctx, fn)
     tr, afs, afo, thr, mode = f.params[:5]
     rel = {'below': -5.0, 'equal': 0.0, 'above': 5.0, 'nan': None}
     bad = []
     total = 0
-    for mname, mval in consts.items():
-        for n in (1, 2, 3):
+    for (mname, mval), (kname, kind) in itertools.product(consts.items(), kinds.items()):
+        for n in (1, 2, 3) if kind is float else (1, 2):
             thresholds = [10.0 * (k + 1) for k in range(n)]          # distinct thresholds: a value paired with the wrong one shows
             for combo in itertools.product(rel, repeat=n):
                 names = ['f%d' % k for k in range(n)]
                 # two observations: the case under test and an all-below one (a marker must not leak from one observation to the next)
-                cols = {nm: [NAN if rel[c] is None else thresholds[k] + rel[c], thresholds[k] - 5.0] for k, (nm, c) in enumerate(zip(names, combo))}
+                cols = {nm: [kind(NAN if rel[c] is None else thresholds[k] + rel[c]), kind(thresholds[k] - 5.0)] for k, (nm, c) in enumerate(zip(names, combo))}
                 t = TrackS(2, cols)
                 try:
                     orders.make_func(f.node, fn)(**{tr: t, afs: list(names), afo: 'OUT', thr: list(thresholds), mode: mval})
                 except orders.Unsupported as e:
                     raise shape_error('segmentation() not interpretable: %s' % e, f.loc())
                 except (IndexError, KeyError, TypeError) as e:
-                    bad.append({'mode': mname, 'feature values vs threshold': list(combo), 'exception': '%s: %s' % (type(e).__name__, e)})
+                    bad.append({'mode': mname, 'values held as': kname, 'feature values vs threshold': list(combo), 'exception': '%s: %s' % (type(e).__name__, e)})
                     continue
                 total += 1
                 live = [c for c in combo if c != 'nan']
@@ -172,7 +174,7 @@ def rule_M(ctx):
                     want = 1 if all(c == 'above' for c in live) else 0
                 got = t.feats.get('OUT')
                 if (got is None or got[0] != want or got[1] != 0) and len(bad) < 6:
-                    bad.append({'mode': mname, 'feature values vs their thresholds (observation 0)': list(combo), 'thresholds': thresholds,
+                    bad.append({'mode': mname, 'values held as': kname, 'feature values vs their thresholds (observation 0)': list(combo), 'thresholds': thresholds,
                                 'markers (observation 0, all-below observation 1)': got, 'expected': [want, 0]})
     # a second segmentation of the same track into the same marker name (other thresholds): the markers are those of the second run
     for mname, mval in consts.items():
